@@ -7,7 +7,8 @@ CONSTANTS
   GenBase = 40  GenCap = 3
   Chunk = 2
   PtrSize = 8
-  Fixed <- McFixed
+  FixedSize <- McFixedSize
+  FixedManaged <- McFixedManaged
   Optional = {2}
   Names = {"", "abc", "abcd", "iter", "logger"}
   Sizes = {0, 3}
